@@ -211,6 +211,8 @@ def run(ctx):
     ctx.floor(r_dedup, n_dd, 2, "multi-row cascades")
 
     pred_rule(ctx, syn)
+    from props.c01 import multiarms_rule
+    multiarms_rule(ctx, syn, rid="C02.MULTIARMS")   # the cascades find dependents through these entries
 
     # ---------------- STRICT
     r_strict = ctx.rule("C02.STRICT", "in non-strict mode remove_data drops the data reference and removes the annotation only when no data is left")
